@@ -140,7 +140,7 @@ class Session:
         d, u, z = l.detector, l.util, l.zernike
         import sys
         zmod = sys.modules['lentil.zernike']
-        seed = rng.choice((1, 2, 3))
+        seed = rng.choice((0, 1, 2, 3))          # 0 is a legal seed like any other
         arr = rng.choice(('A1', 'A2', 'ACC'))
         menu = [
             ('Plane', lambda: l.Plane(amplitude=p['A1'], mask=p['M1']), ['A1', 'M1'], ()),
